@@ -200,6 +200,8 @@ class Renderer:
             return [f"{p}{k}"]
         if k == "return":
             return [f"{p}return" + (f" {self.rx(s['e'])}" if s.get("e") is not None else "")]
+        if k == "awaitcall":
+            return [f"{p}await {self.spec['efuncs'][s['f']]['name']}()"]
         if k == "awaitsub":
             sub = self.spec["subs"][s["sub"]]
             call = f"await {sub['name']}({', '.join(self.rx(a) for a in s['args'])})"
@@ -264,6 +266,13 @@ class Renderer:
             if nonlocal_line:
                 L.append(nonlocal_line)
             L += self.block(sub["body"], 3)
+        for ef in sp.get("efuncs", []):
+            # plain (non-async) function with visible effects that returns the object the caller awaits
+            L.append(f"        def {ef['name']}():")
+            if nonlocal_line:
+                L.append(nonlocal_line)
+            L += self.block(ef["body"], 3)
+            L.append(f"            return {self.rx(ef['ret'])}")
         t = ctx["type"]
         if t in ("seq", "coro"):
             # the same context can be spelled in several documented ways (ctx["style"]); a reset can be derived from
@@ -956,6 +965,15 @@ def design(draw, flavor, reset=None, max_stmts=5, depth=2):
         spec["body"] = body
     else:
         spec["body"] = draw(block(env, depth, min_size=1, max_size=max_stmts))
+        if flavor == "coro" and draw(st.integers(0, 5)) == 0:
+            # `await request()`: request() acts (assignments) and returns the signal to wait for.  The call happens once,
+            # its effects are an action of the process (so the await is never "the very first action")
+            ienv = Env(spec, flavor).inputs_only()
+            ebody = [draw(_plain_assign(Env(spec, flavor))) for _ in range(draw(st.integers(1, 2)))]
+            spec["efuncs"] = [{"name": "hq0", "body": ebody, "ret": ["in", draw(st.sampled_from(ienv.in_bits))]}]
+            # first or last statement of the body (in the middle it would cut the lifetime of bound intermediates)
+            pos = 0 if draw(st.integers(0, 2)) else len(spec["body"])
+            spec["body"].insert(pos, {"k": "awaitcall", "f": 0})
         if flavor == "coro" and spec["subs"]:
             # a sub-coroutine nobody awaits tests nothing: await each unused one somewhere at the top level (mostly)
             import json as _json
